@@ -1,7 +1,7 @@
 (* C20 — Same definition and input always give the same result and the same text. *)
 From GO Require Import Base.Str Base.Sort Model.Tokenizer Model.Option Model.Tree Model.Parse Model.Help Model.Dispatch.
 From GO Require Import Proofs.ParseLemmas Proofs.Match Proofs.HelpLemmas Proofs.Perm Proofs.PermParse Proofs.PermRev Proofs.Unknown.
-From GO Require Import Run.Check.
+From GO Require Import Run.Check Model.Complete Proofs.CompletePerm.
 From Coq Require Import Sorting.Permutation Sorting.Sorted.
 
 (* Go's unspecified map iteration order is "any permutation of the association list".  Every place
@@ -101,4 +101,17 @@ Theorem C20_reversed_tables :
   forall fuel n, wfk n -> nsim n (rev_node fuel n).
 Proof. exact nsim_rev_node. Qed.
 Print Assumptions C20_reversed_tables.
+
+(* completion: the option candidates offered for a last word (the sorted list and the
+   single-candidate hint) do not depend on the order of the level's option table; keys are distinct,
+   contain no `=`, and resolve to declared options.  (The command candidates are a sorted list of
+   the command keys, static suggestions and function results: C20_sorted_lists.)  This became true
+   with the repair of D15: before it the hint read the last entry of the map iteration. *)
+Theorem C20_completion_options_order_independent :
+  forall specs vfn t i i' tbl tbl' c c' w,
+    Permutation tbl tbl' -> NoDup (keys tbl) ->
+    (forall k oid, In (k, oid) tbl -> contains_byte 61 k = false /\ exists sp, nth_error specs oid = Some sp) ->
+    option_completions specs vfn t (Node i tbl c) w = option_completions specs vfn t (Node i' tbl' c') w.
+Proof. exact option_completions_order_independent. Qed.
+Print Assumptions C20_completion_options_order_independent.
 
